@@ -127,7 +127,7 @@ def ob_decision(run, interp, depth):
                     return
                 run.replay(o, sig, "%s for %s" % (bad, expr[:150]), replay_box(expr))
 
-        n_, incomplete = par_explore(run, o, harness, on_path, acc, split_depth=4)
+        n_, incomplete = par_explore(run, o, harness, on_path, acc, split_depth=4, max_paths=3000000 if depth >= 2 else 200000)
         o.paths = dict(acc.counts, total=n_)
         if incomplete:
             o.verdict = "inconclusive"
